@@ -159,6 +159,30 @@ def window(x, p):
                 D > 3120)
 
 
+def longlen(x, p):
+    """Header lengths around the byte and sign boundaries (255/256, 32767/
+    32768, 65535): a concrete stream (one literal, then copies of length 17
+    at offset 1) long enough for the stated length; length symbolic within
+    the window."""
+    lo, hi = p['lo'], p['hi']
+    length = x.conc(x.int('len', lo, hi))      # one path per length
+    nblocks = (hi + 16) // 17
+    stream = bytes([0x0d]) + bytes([0x3c, 0xf1]) * nblocks
+    area = header_sym(length) + stream
+    try:
+        n2, code, csize = compress.decompress_code(area)
+    except Exception as e:
+        x.check('decompress_code accepts a long well-formed stream', False,
+                info=repr(e))
+        return
+    x.out('n', len(code))
+    x.check('reported length is the header length', n2 == length)
+    x.check('decoded text has the stated length', len(code) == length)
+    if len(code) == length:
+        x.check('decoded text is the repeated character', And(
+            code[0] == 97, code[len(code) - 1] == 97, code[len(code) // 2] == 97))
+
+
 def header_sym(n):
     return b':c:\0' + bytes([n >> 8, n & 255]) + b'\0\0'
 
@@ -178,6 +202,9 @@ HARNESSES = [
     Harness('window', window,
             quick=[dict(Q, D=d) for d in (3119, 3120, 3121, 3135, 3136,
                                           3137)]),
+    Harness('longlen', longlen,
+            quick=[dict(Q, lo=254, hi=258), dict(Q, lo=32766, hi=32770),
+                   dict(Q, lo=65534, hi=65535)]),
     Harness('agree', agree,
             quick=[dict(Q, ns=3, maxlen=6), dict(Q, ns=4, maxlen=8)],
             thorough=[dict(Q, ns=4, maxlen=8, _budget=900),
